@@ -51,10 +51,19 @@ def base_env(extra=None):
 
 def run(argv, cwd=None, env=None, timeout=WATCHDOG, stdin=None, new_session=True):
     t0 = time.time()
-    p = subprocess.Popen(argv, cwd=cwd, env=env if env is not None else base_env(),
-                         stdin=subprocess.PIPE if stdin is not None else subprocess.DEVNULL,
-                         stdout=subprocess.PIPE, stderr=subprocess.PIPE,
-                         start_new_session=new_session)
+    for attempt in range(60):
+        try:
+            p = subprocess.Popen(argv, cwd=cwd, env=env if env is not None else base_env(),
+                                 stdin=subprocess.PIPE if stdin is not None else subprocess.DEVNULL,
+                                 stdout=subprocess.PIPE, stderr=subprocess.PIPE,
+                                 start_new_session=new_session)
+            break
+        except OSError as e:
+            # the binary is being re-linked by a concurrent build (EACCES / ETXTBSY / ENOENT): wait for it
+            if e.errno in (13, 26, 2) and attempt < 59 and os.path.dirname(argv[0]).startswith(build.BUILD_ROOT):
+                time.sleep(3)
+                continue
+            raise
     timed_out = False
     try:
         out, err = p.communicate(stdin, timeout=timeout)
